@@ -527,7 +527,12 @@ bool internal_dump_all_dialects(const char *file_name)
 {
   if (0 == strcmp(file_name, "-"))
     {
-      return internal_dump_all_dialects_to_file(stdout);
+      if (!internal_dump_all_dialects_to_file(stdout))
+	{
+	  perror("stdout");
+	  return false;
+	}
+      return true;
     }
   else
     {
@@ -539,6 +544,8 @@ bool internal_dump_all_dialects(const char *file_name)
 	  return false;
 	}
       ok = internal_dump_all_dialects_to_file(f);
+      if (!ok)
+	perror(file_name);
       if (EOF == fclose(f))
 	{
 	  perror(file_name);
